@@ -6,9 +6,21 @@ from concurrent.futures import ThreadPoolExecutor
 
 VERIF = os.path.dirname(os.path.dirname(os.path.abspath(__file__)))
 REPO = os.environ.get("VERIF_REPO", "/repo")
-BUILD = os.path.join(VERIF, ".build")
-COQ = os.path.join(VERIF, "coq")
+ALT = os.path.realpath(REPO) != "/repo"
+# VERIF_REPO=<scratch worktree> runs a check against another tree without touching the shared build
+# directory, Coq tree, evidence or replays (used to try seeded changes in parallel).
+BUILD = os.path.join(VERIF, ".build") if not ALT else os.path.join(VERIF, ".build_alt", hashlib.sha1(os.path.realpath(REPO).encode()).hexdigest()[:10])
+COQ_SRC = os.path.join(VERIF, "coq")
+COQ = COQ_SRC if not ALT else os.path.join(BUILD, "coq")
 HARNESS = os.path.join(VERIF, "harness")
+OUT = VERIF if not ALT else BUILD     # evidence/ and replays/ live here
+
+def prepare():
+    os.makedirs(BUILD, exist_ok=True)
+    if ALT:
+        os.makedirs(COQ, exist_ok=True)
+        subprocess.run(["rsync", "-a", "--delete", "--exclude", "Makefile*", "--exclude", ".Makefile.d", "--exclude", "_CoqProject",
+                        COQ_SRC + "/", COQ + "/"], check=True)
 
 ALLOWED_AXIOMS = {
     # Coq standard library axioms a theorem may depend on (named in DESIGN.md section 5)
@@ -82,10 +94,10 @@ def strip_comments(txt):
 def run_goextract(log):
     """Regenerate coq/Extracted/Extracted.v from /repo's working tree (T1)."""
     exe = os.path.join(BUILD, "bin", "goextract")
-    src = os.path.join(HARNESS, "cmd", "goextract")
+    src = os.path.join(HARNESS, "tools", "goextract")
     if not os.path.isdir(src):
         return True, ""
-    rc, out = run(["go", "build", "-o", exe, "./cmd/goextract"], cwd=HARNESS, env=goenv(), timeout=600)
+    rc, out = run(["go", "build", "-o", exe, "."], cwd=src, env=goenv(), timeout=600)
     if rc != 0:
         log("goextract build failed:\n" + out)
         return False, out
@@ -105,7 +117,7 @@ def run_goextract(log):
 # ---------------------------------------------------------------- Coq build
 def coq_build(targets, log, timeout=3000):
     """make the given .vo targets (and what they depend on). Returns (ok, output)."""
-    run([os.path.join(VERIF, "bin", "gen-coqproject")])
+    run([os.path.join(VERIF, "bin", "gen-coqproject"), COQ])
     cmd = ["make", "-j16", "-k"] + targets
     rc, out = run(["timeout", str(timeout)] + cmd, cwd=COQ)
     return rc == 0, out
@@ -147,8 +159,14 @@ def props_assumptions(props_v, log):
 # ---------------------------------------------------------------- Go harness
 def build_harness(name, log, tags="verif", race=False):
     exe = os.path.join(BUILD, "bin", name + ("_race" if race else ""))
-    shutil.copyfile(os.path.join(REPO, "go.sum"), os.path.join(HARNESS, "go.sum"))
-    cmd = ["go", "build", "-tags", tags]
+    moddir = os.path.join(BUILD, "gomod")
+    os.makedirs(moddir, exist_ok=True)
+    gm = open(os.path.join(HARNESS, "go.mod")).read().replace("=> /repo", "=> " + os.path.realpath(REPO))
+    mf = os.path.join(moddir, "go.mod")
+    if not os.path.exists(mf) or open(mf).read() != gm:
+        open(mf, "w").write(gm)
+    shutil.copyfile(os.path.join(REPO, "go.sum"), os.path.join(moddir, "go.sum"))
+    cmd = ["go", "build", "-modfile=" + mf, "-tags", tags]
     if race: cmd.append("-race")
     cmd += ["-o", exe, "./cmd/" + name]
     rc, out = run(cmd, cwd=HARNESS, env=goenv(), timeout=1500)
@@ -213,7 +231,7 @@ def known_match(prop, cls, known):
 
 # ---------------------------------------------------------------- evidence
 def write_evidence(prop, ev):
-    os.makedirs(os.path.join(VERIF, "evidence"), exist_ok=True)
-    with open(os.path.join(VERIF, "evidence", prop + ".json"), "w") as f:
+    os.makedirs(os.path.join(OUT, "evidence"), exist_ok=True)
+    with open(os.path.join(OUT, "evidence", prop + ".json"), "w") as f:
         json.dump(ev, f, indent=1, sort_keys=True)
         f.write("\n")
